@@ -29,12 +29,13 @@ ASSUMPTIONS = ["for three or more numeric operands the leaf dtype may be numpy.r
                "(NumPy's promotion is not associative; the statement quantifies over dtype pairs); both are tallied",
                "regular and variable-length list types are compared as 'list' (merging two regular arrays may give a variable-length list type)",
                "mergeable() is not required to be symmetric (nothing documents it); asymmetry is only tallied",
-               "mergemany is called, as ak.concatenate does, only on operands the library itself declares mergeable",
+               "mergemany is called only on operands the library itself declares pairwise mergeable (ak.concatenate only asks each operand's predecessor: "
+               "known finding concatenate_mergeable_not_transitive)",
                "simplify is documented to work one level deep: inputs are nested exactly one level",
                "when the operands are not merged into one type, 'unchanged up to the numeric cast' means: numpy's cast into the dtype of the union member the element landed in"]
 PLAN = {
     "quick": [{"flavour": "plain", "cases": 20000}, {"flavour": "san", "cases": 3000}],
-    "thorough": [{"flavour": "plain", "cases": 400000}, {"flavour": "san", "cases": 80000}],
+    "thorough": [{"flavour": "plain", "cases": 200000}, {"flavour": "san", "cases": 40000}],
 }
 WALL_CAP = {"quick": 900, "thorough": 3300}
 FORK_EACH = False
@@ -646,14 +647,15 @@ def run_concat(case):
 
     elif op == "mergemany":
         chain = all(run.call("mergeable", lambda: lays[i].mergeable(lays[i + 1], mb), "mergeable is a total predicate")[1] for i in range(len(lays) - 1))
-        star = chain and all(run.call("mergeable", lambda: lays[0].mergeable(lays[i], mb), "mergeable is a total predicate")[1] for i in range(2, len(lays)))
+        star = chain and all(run.call("mergeable", lambda: lays[i].mergeable(lays[j], mb), "mergeable is a total predicate")[1]
+                             for i in range(len(lays)) for j in range(i + 2, len(lays)))
         if not star:
             tags.append("mergemany:not_mergeable")
             if all_must(types, mb):
                 raise Violation("unmergeable:" + label, "arrays of identical type (up to the numeric dtype) are declared not mergeable",
                                 expected={"types": types, "mergeable": True}, observed=False)
         else:
-            res = run.call("mergemany", lambda: lays[0].mergemany(lays[1:]), "every operand is declared mergeable with its predecessor and with the first")[1]
+            res = run.call("mergemany", lambda: lays[0].mergemany(lays[1:]), "the operands are declared pairwise mergeable")[1]
             Tr, Vr = run.read(res, "mergemany")
             single = None if any(has_top_union(T) for T in types) else "all operands are declared mergeable and none is a union"
             tags += judge_merged(run, "mergemany", operands, Tr, Vr, mb, require_single=single, members_distinct=False)
